@@ -45,6 +45,15 @@ type caseFields struct {
 	K     int    `json:"k"`
 	Pat   int    `json:"pat"`
 	Tl1   int    `json:"tl1"`
+	Dupf  int    `json:"dupf"`
+}
+
+// seed of the content of the i-th filter (1-based): with dupf the filters of a request repeat
+func (k *caseFields) seedOf(i int) int {
+	if k.Dupf == 1 {
+		return 10 + i%2
+	}
+	return 10 + i
 }
 
 // length of the i-th filter (1-based) of a SUBSCRIBE / UNSUBSCRIBE case
@@ -161,23 +170,33 @@ func buildCase(c *codecCase) (message.Message, error) {
 		switch k.Ty {
 		case "PUBACK":
 			x := message.NewPubackMessage()
-			x.SetPacketID(uint16(k.ID))
+			if k.ID != 0 {
+				x.SetPacketID(uint16(k.ID))
+			}
 			m = x
 		case "PUBREC":
 			x := message.NewPubrecMessage()
-			x.SetPacketID(uint16(k.ID))
+			if k.ID != 0 {
+				x.SetPacketID(uint16(k.ID))
+			}
 			m = x
 		case "PUBREL":
 			x := message.NewPubrelMessage()
-			x.SetPacketID(uint16(k.ID))
+			if k.ID != 0 {
+				x.SetPacketID(uint16(k.ID))
+			}
 			m = x
 		case "PUBCOMP":
 			x := message.NewPubcompMessage()
-			x.SetPacketID(uint16(k.ID))
+			if k.ID != 0 {
+				x.SetPacketID(uint16(k.ID))
+			}
 			m = x
 		default:
 			x := message.NewUnsubackMessage()
-			x.SetPacketID(uint16(k.ID))
+			if k.ID != 0 {
+				x.SetPacketID(uint16(k.ID))
+			}
 			m = x
 		}
 		return m, nil
@@ -185,7 +204,7 @@ func buildCase(c *codecCase) (message.Message, error) {
 		m := message.NewSubscribeMessage()
 		m.SetPacketID(uint16(k.ID))
 		for i := 1; i <= k.K; i++ {
-			if err := m.AddTopic(fillBytes(k.tlOf(i), 10+i), subQos(k.Pat, i)); err != nil {
+			if err := m.AddTopic(fillBytes(k.tlOf(i), k.seedOf(i)), subQos(k.Pat, i)); err != nil {
 				return nil, err
 			}
 		}
@@ -194,7 +213,7 @@ func buildCase(c *codecCase) (message.Message, error) {
 		m := message.NewUnsubscribeMessage()
 		m.SetPacketID(uint16(k.ID))
 		for i := 1; i <= k.K; i++ {
-			m.AddTopic(fillBytes(k.tlOf(i), 10+i))
+			m.AddTopic(fillBytes(k.tlOf(i), k.seedOf(i)))
 		}
 		return m, nil
 	case "SUBACK":
@@ -278,14 +297,14 @@ func fieldsEqual(c *codecCase, m message.Message) string {
 		add(eq("PacketID", int(x.PacketID()), k.ID))
 		add(eq("len(Topics)", len(x.Topics()), k.K))
 		for i := 1; i <= k.K && i <= len(x.Topics()); i++ {
-			add(eq(fmt.Sprintf("Topics[%d]", i-1), b2(x.Topics()[i-1]), fillBytes(k.tlOf(i), 10+i)))
+			add(eq(fmt.Sprintf("Topics[%d]", i-1), b2(x.Topics()[i-1]), fillBytes(k.tlOf(i), k.seedOf(i))))
 			add(eq(fmt.Sprintf("Qos[%d]", i-1), x.Qos()[i-1], subQos(k.Pat, i)))
 		}
 	case *message.UnsubscribeMessage:
 		add(eq("PacketID", int(x.PacketID()), k.ID))
 		add(eq("len(Topics)", len(x.Topics()), k.K))
 		for i := 1; i <= k.K && i <= len(x.Topics()); i++ {
-			add(eq(fmt.Sprintf("Topics[%d]", i-1), b2(x.Topics()[i-1]), fillBytes(k.tlOf(i), 10+i)))
+			add(eq(fmt.Sprintf("Topics[%d]", i-1), b2(x.Topics()[i-1]), fillBytes(k.tlOf(i), k.seedOf(i))))
 		}
 	case *message.SubackMessage:
 		add(eq("PacketID", int(x.PacketID()), k.ID))
@@ -323,6 +342,10 @@ func codecCheck(c *codecCase, res *Result) {
 	fail := func(what string) {
 		res.mismatch(Mismatch{What: kind() + ": " + what, Tag: "C03", Replay: map[string]interface{}{"case": c.Case, "len": c.Len}})
 	}
+	// a well-formed packet that is rejected or misread is (also) the decoder property's observable
+	failDec := func(what string) {
+		res.mismatch(Mismatch{What: kind() + ": " + what, Tag: "C04", Replay: map[string]interface{}{"case": c.Case, "len": c.Len}})
+	}
 	defer func() {
 		if r := recover(); r != nil {
 			fail(fmt.Sprintf("panic: %v", r))
@@ -339,72 +362,32 @@ func codecCheck(c *codecCase, res *Result) {
 		modCheck(c, wire, res, kind())
 		return
 	}
-	m, err := buildCase(c)
-	if err != nil {
-		fail("cannot be built through the setters: " + err.Error())
-		return
-	}
-	res.Steps++
-	if l := m.Len(); l != c.Len {
-		fail(fmt.Sprintf("Len() = %d, reference %d", l, c.Len))
-		return
-	}
-	buf := make([]byte, c.Len)
-	n, err := m.Encode(buf)
-	if err != nil {
-		fail("Encode error: " + short(err.Error(), 60))
-		return
-	}
-	if n != c.Len {
-		fail(fmt.Sprintf("Encode returned %d, reference %d", n, c.Len))
-		return
-	}
-	if !bytes.Equal(buf, wire) {
-		i := 0
-		for i < len(buf) && buf[i] == wire[i] {
-			i++
-		}
-		fail(fmt.Sprintf("Encode bytes differ from the reference at offset %d (got %#x, want %#x)", i, buf[i], wire[i]))
-		return
-	}
-	// the destination is rarely fresh memory (the broker encodes straight into a ring buffer that has been used
-	// before): Encode must write every one of its Len() bytes
-	dirty := bytes.Repeat([]byte{0xa5}, c.Len+4)
-	n, err = m.Encode(dirty)
-	if err != nil || n != c.Len || !bytes.Equal(dirty[:n], wire) {
-		i := 0
-		for i < n && i < len(wire) && dirty[i] == wire[i] {
-			i++
-		}
-		fail(fmt.Sprintf("Encode into a buffer that held other bytes before (0xa5...) leaves byte %d of the packet unwritten or wrong (n=%d err=%v)", i, n, err))
-		return
-	}
-	if !bytes.Equal(dirty[n:], []byte{0xa5, 0xa5, 0xa5, 0xa5}) {
-		fail("Encode writes behind the Len() bytes of the packet")
-		return
-	}
-	// a buffer one byte too small must be refused, not overrun
-	if c.Len > 2 {
-		small := make([]byte, c.Len-1)
-		if _, err := m.Encode(small); err == nil {
-			fail("Encode into a buffer one byte too small succeeded")
+	var n int
+	var err error
+	// a request that repeats a filter cannot be built through the setters (AddTopic replaces): decode direction only
+	if c.Case.Dupf != 1 {
+		if d := encodeDirection(c, wire, res); d != "" {
+			fail(d)
 			return
 		}
+	}
+	if _, isAck := map[string]bool{"PUBACK": true, "PUBREC": true, "PUBREL": true, "PUBCOMP": true, "UNSUBACK": true}[c.Case.Ty]; isAck && c.Case.ID == 0 {
+		return // identifier never set: encode direction only (no peer may send this packet)
 	}
 	// decode the reference bytes (capacity = length)
 	dec, _ := typeByName[c.Case.Ty].New()
 	in := append([]byte(nil), wire...)
 	n, err = dec.Decode(in[:len(in):len(in)])
 	if err != nil {
-		fail("Decode of the reference bytes failed: " + short(err.Error(), 70))
+		failDec("Decode of the reference bytes failed: " + short(err.Error(), 70))
 		return
 	}
 	if n != c.Len {
-		fail(fmt.Sprintf("Decode consumed %d bytes, reference %d", n, c.Len))
+		failDec(fmt.Sprintf("Decode consumed %d bytes, reference %d", n, c.Len))
 		return
 	}
 	if d := fieldsEqual(c, dec); d != "" {
-		fail("decoded fields differ: " + d)
+		failDec("decoded fields differ: " + d)
 		return
 	}
 	if l := dec.Len(); l != c.Len {
@@ -435,6 +418,54 @@ func codecCheck(c *codecCase, res *Result) {
 		fail(fmt.Sprintf("re-encoding after decoding a slice with trailing bytes gives %d bytes (err=%v), the packet has %d", n, err, c.Len))
 		return
 	}
+}
+
+func encodeDirection(c *codecCase, wire []byte, res *Result) string {
+	m, err := buildCase(c)
+	if err != nil {
+		return "cannot be built through the setters: " + err.Error()
+	}
+	res.Steps++
+	if l := m.Len(); l != c.Len {
+		return fmt.Sprintf("Len() = %d, reference %d", l, c.Len)
+	}
+	buf := make([]byte, c.Len)
+	n, err := m.Encode(buf)
+	if err != nil {
+		return "Encode error: " + short(err.Error(), 60)
+	}
+	if n != c.Len {
+		return fmt.Sprintf("Encode returned %d, reference %d", n, c.Len)
+	}
+	if !bytes.Equal(buf, wire) {
+		i := 0
+		for i < len(buf) && buf[i] == wire[i] {
+			i++
+		}
+		return fmt.Sprintf("Encode bytes differ from the reference at offset %d (got %#x, want %#x)", i, buf[i], wire[i])
+	}
+	// the destination is rarely fresh memory (the broker encodes straight into a ring buffer that has been used
+	// before): Encode must write every one of its Len() bytes
+	dirty := bytes.Repeat([]byte{0xa5}, c.Len+4)
+	n, err = m.Encode(dirty)
+	if err != nil || n != c.Len || !bytes.Equal(dirty[:n], wire) {
+		i := 0
+		for i < n && i < len(wire) && dirty[i] == wire[i] {
+			i++
+		}
+		return fmt.Sprintf("Encode into a buffer that held other bytes before (0xa5...) leaves byte %d of the packet unwritten or wrong (n=%d err=%v)", i, n, err)
+	}
+	if !bytes.Equal(dirty[n:], []byte{0xa5, 0xa5, 0xa5, 0xa5}) {
+		return "Encode writes behind the Len() bytes of the packet"
+	}
+	// a buffer one byte too small must be refused, not overrun
+	if c.Len > 2 {
+		small := make([]byte, c.Len-1)
+		if _, err := m.Encode(small); err == nil {
+			return "Encode into a buffer one byte too small succeeded"
+		}
+	}
+	return ""
 }
 
 // padCheck: the reference packet with a non-minimal remaining length. A decoder may refuse it; if it accepts it, byte
@@ -573,20 +604,20 @@ func modCheck(c *codecCase, wire []byte, res *Result, kind string) {
 		}
 	case *message.SubscribeMessage:
 		for i := from.K + 1; i <= to.K; i++ {
-			m.AddTopic(fillBytes(to.tlOf(i), 10+i), subQos(to.Pat, i))
+			m.AddTopic(fillBytes(to.tlOf(i), to.seedOf(i)), subQos(to.Pat, i))
 			calls = append(calls, "AddTopic")
 		}
 		for i := from.K; i > to.K; i-- {
-			m.RemoveTopic(fillBytes(from.tlOf(i), 10+i))
+			m.RemoveTopic(fillBytes(from.tlOf(i), from.seedOf(i)))
 			calls = append(calls, "RemoveTopic")
 		}
 	case *message.UnsubscribeMessage:
 		for i := from.K + 1; i <= to.K; i++ {
-			m.AddTopic(fillBytes(to.tlOf(i), 10+i))
+			m.AddTopic(fillBytes(to.tlOf(i), to.seedOf(i)))
 			calls = append(calls, "AddTopic")
 		}
 		for i := from.K; i > to.K; i-- {
-			m.RemoveTopic(fillBytes(from.tlOf(i), 10+i))
+			m.RemoveTopic(fillBytes(from.tlOf(i), from.seedOf(i)))
 			calls = append(calls, "RemoveTopic")
 		}
 	default:
